@@ -679,8 +679,26 @@ func (vc *FuncVC) builtin(s *State, b *ssa.Builtin, cc *ssa.CallCommon, args []T
 	case "append":
 		return []Term{vc.appendOp(s, cc, args, pos)}
 	case "copy":
-		vc.outsideSubset("builtin copy")
-		return []Term{vc.freshConst("copy", "Int")}
+		st, ok := cc.Args[0].Type().Underlying().(*types.Slice)
+		if !ok || !vc.useQuantSlices {
+			vc.outsideSubset("builtin copy")
+			return []Term{vc.freshConst("copy", "Int")}
+		}
+		// copy(dst, src): memmove of n = min(len dst, len src) elements; the new heap is defined pointwise
+		// from the OLD heap (overlapping source and destination are read before they are written)
+		dst, src := args[0], args[1]
+		es := vc.ss.sortOf(st.Elem())
+		hs := "(Array Int (Array Int " + es + "))"
+		h := vc.get(s, "A:"+es, hs)
+		n := vc.freshConst("copy_n", "Int")
+		vc.assume(s.pc, T("Bool", fmt.Sprintf("(= %s (ite (<= (s!len %s) (s!len %s)) (s!len %s) (s!len %s)))", n.S, dst.S, src.S, dst.S, src.S)))
+		nh := vc.freshConst("copy_heap", hs)
+		od, os_ := sliceOff(dst), sliceOff(src)
+		vc.emit("(assert (=> %s (forall ((r!q Int) (k!q Int)) (! (= (select (select %s r!q) k!q) (ite (and (= r!q (s!arr %s)) (<= %s k!q) (< k!q (+ %s %s))) (select (select %s (s!arr %s)) %s) (select (select %s r!q) k!q))) :pattern ((select (select %s r!q) k!q))))))",
+			s.pc.S, nh.S, dst.S, od.S, od.S, n.S, h.S, src.S, ixTerm(os_, T("Int", fmt.Sprintf("(- k!q %s)", od.S))).S, h.S, nh.S)
+		vc.set(s, "A:"+es, nh)
+		vc.noteWrite("A:" + es)
+		return []Term{n}
 	case "delete":
 		m, k := args[0], args[1]
 		dk, _, ds, _ := vc.mapKeys(cc.Args[0].Type())
